@@ -286,7 +286,9 @@ func unpublishedAt(r *Run, f *ssa.Function, v ssa.Value, at ssa.Instruction, dep
 
 // freshReturning: every return of callee yields an allocation made by that activation which is still
 // unpublished at the return.
-func freshReturning(r *Run, cal *ssa.Function, depth int) bool { return freshReturningAt(r, cal, 0, depth) }
+func freshReturning(r *Run, cal *ssa.Function, depth int) bool {
+	return freshReturningAt(r, cal, 0, depth)
+}
 
 // freshReturningAt: result #idx of every return of cal is an allocation of that activation, unpublished at the
 // return (a nil result - 'nothing built on this path' - is fine too).
